@@ -92,6 +92,11 @@ theorem no_rebroadcast (st : State) (h : reportable st = true ∨ st = .pendingO
   simp [noRebroadcast, ha] at this
   simpa using this
 
+theorem ow_expiryRearm (s : AState) (a : Acct) (acts : List String) : OnlyWrites s (expiryRearm s a acts) := by
+  unfold expiryRearm; split
+  · exact ow_watchExpiration _ _
+  · exact OnlyWrites.refl _
+
 theorem ow_resumeRest (s : AState) (a : Acct) (h : reportable a.state = true ∨ a.state = .pendingOpen) :
     OnlyWrites s (resumeRest s a false).1 := by
   unfold resumeRest
@@ -101,8 +106,8 @@ theorem ow_resumeRest (s : AState) (a : Acct) (h : reportable a.state = true ∨
     have hb := no_rebroadcast _ h acts hacts
     have hb' : ¬ "maybeBroadcastTx" ∈ acts := by simpa using hb
     have hr : rebroadcast s a false acts = (s, .ok) := by simp [rebroadcast, hb']
-    simp only [hr]
-    exact ow_watchers s a acts
+    simp only [hr, if_true]
+    refine OnlyWrites.trans (ow_watchers s a acts) (ow_expiryRearm _ a acts)
 
 theorem fundOrLocate_recovery {s s' : AState} {a : Acct} {fee : Bool} {f : Option (Nat × Nat)}
     {acts : List String} {t : Tx} (h : fundOrLocate s a false true fee f acts = .got s' t) : s' = s := by
@@ -222,7 +227,9 @@ theorem secOK_resumeRest {x : Nat} {s : AState} (h : SecOK x s) (a : Acct) (r : 
   · exact h
   · simp only []
     split
-    · exact secOK_watchers (secOK_rebroadcast h _ _ _) _ _
+    · unfold expiryRearm; split
+      · exact secOK_watchExpiration (secOK_watchers (secOK_rebroadcast h _ _ _) _ _) _
+      · exact secOK_watchers (secOK_rebroadcast h _ _ _) _ _
     · exact secOK_rebroadcast h _ _ _
 
 theorem fundOrLocate_acct {s s' : AState} {a : Acct} {r1 r2 fee : Bool} {f : Option (Nat × Nat)}
